@@ -51,14 +51,17 @@ import (
 
 var c08UserID = map[string]int{"": 0, "alice": 1, "bob": 2, "carol": 3, "admin": 7, "gadmin": 8, "autoadm": 9,
 	"svc-automation": 30, "svc-grp": 31, "newuser": 40, "ghost": 41, "dave": 4}
-var c08GroupID = map[string]int{"km-admins": 50, "automation-grp": 51, "staff": 52}
+var c08GroupID = map[string]int{"km-admins": 50, "automation-grp": 51, "staff": 52,
+	// look-alikes of the configured names: none of them makes anybody administrator / automation identity
+	"km-admins-ro": 53, "km-admin": 54, "KM-ADMINS": 55, "automation-grp-x": 56, "automation": 57}
 var c08TokName = map[string]int{"": 0, "tok-a": 11, "tok-b": 12, "tok-c": 13, "renamed": 20}
 
 // users that have a row in every fixture
 var c08Existing = []string{"alice", "bob", "carol", "admin", "gadmin", "autoadm", "svc-automation"}
 
 // the directory of the matrix environment (ground truth the harness wrote to groups.json)
-var c08Directory = map[string][]string{"gadmin": {"km-admins"}, "svc-grp": {"automation-grp"}, "alice": {"staff"}, "bob": {"staff"}}
+var c08Directory = map[string][]string{"gadmin": {"km-admins"}, "svc-grp": {"automation-grp"}, "alice": {"automation", "automation-grp-x", "staff"}, "bob": {"staff"},
+	"carol": {"KM-ADMINS", "km-admin", "km-admins-ro"}}
 
 func c08IsAdminTruth(u string) bool     { return u == "admin" || u == "gadmin" }
 func c08IsAutoAdminTruth(u string) bool { return u == "autoadm" }
@@ -101,7 +104,7 @@ func c08WriteGroups(t *testing.T, dir string, groups map[string][]string) {
 	if err := ioutil.WriteFile(filepath.Join(dir, "groups.json"), b, 0644); err != nil {
 		t.Fatal(err)
 	}
-	if err := ioutil.WriteFile(filepath.Join(dir, "permitted-groups.json"), []byte(`["automation-grp", "km-.*", "staff"]`), 0644); err != nil {
+	if err := ioutil.WriteFile(filepath.Join(dir, "permitted-groups.json"), []byte(`["KM-.*", "automation.*", "km-.*", "staff"]`), 0644); err != nil {
 		t.Fatal(err)
 	}
 }
@@ -812,6 +815,8 @@ func (r *c08Runner) matrix(levels []int, full bool) {
 		}
 		creds = append(creds, c08Cred{"kmcert", a, 0})
 	}
+	// carol is in groups whose names merely resemble the administrators' group
+	creds = append(creds, c08Cred{"session", "carol", AuthTypePassword | AuthTypeU2F}, c08Cred{"kmcert", "carol", 0})
 	creds = append(creds, c08Cred{"ipcert", "svc-automation", 0}, c08Cred{"none", "", 0})
 	for _, op := range c08Ops {
 		for ci, cred := range creds {
@@ -1003,7 +1008,7 @@ func (r *c08Runner) traces(rng *mrand.Rand, thorough bool) (cases, idx []string)
 	st := env.state
 	worlds := []map[string][]string{
 		{"km-admins": {"gadmin"}, "staff": {"alice", "dave"}},
-		{"km-admins": {"alice"}, "staff": {"dave"}},
+		{"km-admins": {"alice"}, "staff": {"dave"}, "km-admins-ro": {"dave", "gadmin"}, "km-admin": {"dave"}, "KM-ADMINS": {"gadmin"}},
 		{"km-admins": {"dave", "gadmin"}, "staff": {"alice", "gadmin"}},
 		{"km-admins": {}, "staff": {}},
 	}
